@@ -214,3 +214,95 @@ def get_units():
         us.append(Unit('C14/size.diag.%s' % nm, diag_size(nm), ['C14'], contracts=(K.PackBitstring(),), loops=loops,
                        functions=[C.DG + nm + 'Request.execute', C.DG + 'DiagnosticStatusRequest.get_response_pdu_size']))
     return us
+
+
+# --------------------------------------------------------------------------- the read itself: _recv asks the transport for exactly the reply frame
+# Given the three facts above (predicted PDU size, ADU overhead, exception length each equal to the real thing), what remains of "reads
+# exactly the reply frame" is the reader: from a transport that holds exactly the reply frame F - a normal reply of the predicted length
+# or an exception reply of the specified exception-ADU length - _recv requests, over all its reads together, exactly len(F) bytes (it
+# neither stops short of the checksum nor asks for bytes that never come) and returns F.
+from spec import checks as CK
+
+EXC_ADU = {'rtu': 5, 'ascii': 11, 'binary': 7, 'socket': 9}        # unit + fc|0x80 + code + framing, MODBUS over serial line v1.02 / MBAP
+FQ = {'rtu': RTU, 'ascii': ASCII, 'binary': BINARY, 'socket': SOCKET}
+
+
+def frame_fc(kind, f):
+    if kind == 'rtu':
+        return L.at(f, 1)
+    if kind == 'binary':
+        return L.at(f, 2)
+    if kind == 'socket':
+        return L.at(f, 7)
+    return CK.hexval(L.at(f, 3)) * 16 + CK.hexval(L.at(f, 4))
+
+
+def recv_exact(kind, reply):
+    def lemma(E):
+        tm, fr = manager(E, FQ[kind])
+        client = E.get(tm, 'client')
+        E.set(fr, 'client', client)
+        frame = E.bytes('frame', EXC_ADU[kind] if reply == 'exception' else {'rtu': 4, 'ascii': 9, 'binary': 6, 'socket': 8}[kind], 600)
+        n = L.length(frame)
+        if kind == 'ascii':
+            E.assume(L.And(CK.hexval(L.at(frame, 3)) >= 0, CK.hexval(L.at(frame, 4)) >= 0))      # a frame: the function code is two hex digits
+        fc = frame_fc(kind, frame)
+        if reply == 'exception':
+            E.assume(L.And(fc >= 0x80, n == EXC_ADU[kind]))
+            expected = E.int('predicted_normal_length', 4, 600) if kind != 'socket' else None       # whatever was predicted for the normal reply
+        else:
+            E.assume(fc < 0x80)
+            expected = n if kind != 'socket' else None
+        if kind == 'socket':
+            E.assume(P_u16(frame, 4) == n - 6)                                                     # MBAP length = unit id + PDU
+        pos, asked = [0], [0]
+
+        def recv(size):
+            E.prove('read:size-is-a-non-negative-count', size >= 0)
+            lo = pos[0]
+            hi = L.minimum(lo + size, n)
+            pos[0] = hi
+            asked[0] = asked[0] + size
+            return E.as_bytes(L.slice_(frame, lo, hi))
+        E.set(client, 'recv', E.callback(recv, 'recv'))
+        E.set(client, 'state', 2)
+        E.set(client, 'last_frame_end', 0)
+        out = E.attempt(lambda: E.method(tm, '_recv', expected, False))
+        E.prove('read:no-exception', out.ok)
+        if not out.ok:
+            return
+        E.prove('read:requests-exactly-the-reply-frame(not-short-of-the-checksum,not-waiting-for-more)', asked[0] == n)
+        E.prove('read:returns-the-frame', L.eq(out.value, frame))
+    return lemma
+
+
+def P_u16(b, i):
+    return L.at(b, i) * 256 + L.at(b, i + 1)
+
+
+def recv_twin(kind, reply):
+    def make(g):
+        r = g.r
+        from .framers import concrete_frame
+        uid = r.choice([1, 17, 127, 128, 200, 247])
+        if reply == 'exception':
+            pdu = [r.randrange(0x81, 0x100), r.randrange(1, 12)]
+        else:
+            pdu = [r.randrange(1, 0x80)] + [r.randrange(256) for _ in range(r.choice([1, 2, 4, 5, 9, 40]))]
+        if kind == 'binary':
+            pdu = [b if b not in (0x7B, 0x7D) else 0x11 for b in pdu]
+        fr = concrete_frame(kind, uid, pdu, r.randrange(65536))
+        return {'frame': {'items': fr}, 'predicted_normal_length': r.randrange(4, 300)}
+    return make
+
+
+_get_units1 = get_units
+
+
+def get_units():
+    us = _get_units1()
+    for kind in ('rtu', 'ascii', 'binary', 'socket'):
+        for reply in ('normal', 'exception'):
+            us.append(Unit('C14/read.%s.%s' % (kind, reply), recv_exact(kind, reply), ['C14'], twin=recv_twin(kind, reply),
+                           functions=[TM + '._recv', TM + '._calculate_exception_length', FQ[kind] + '.recvPacket']))
+    return us
